@@ -33,6 +33,8 @@ import (
 	"github.com/tink-crypto/tink-go/v2/signature/slhdsa"
 	"github.com/tink-crypto/tink-go/v2/verifharness/internal/detrand"
 	"github.com/tink-crypto/tink-go/v2/verifharness/internal/evid"
+	"github.com/tink-crypto/tink-go/v2/verifharness/internal/gen"
+	"github.com/tink-crypto/tink-go/v2/verifharness/internal/legacykm"
 	"github.com/tink-crypto/tink-go/v2/verifharness/internal/keys"
 	"github.com/tink-crypto/tink-go/v2/verifharness/internal/kf"
 	"github.com/tink-crypto/tink-go/v2/verifharness/internal/tk"
@@ -381,20 +383,43 @@ func TestConstructorsCopyInputs(t *testing.T) {
 func TestKeysetProtoDoesNotAlias(t *testing.T) {
 	rapid.Check(t, func(rt *rapid.T) {
 		detrand.Seed(rapid.Uint64().Draw(rt, "entropy"))
-		info := drawAnyKey(rt)
-		usePublic := info.Public != nil && rapid.Bool().Draw(rt, "public")
-		k := info.Key
-		if usePublic {
-			k = info.Public
+		var info *keys.Info
+		var k key.Key
+		var h *keyset.Handle
+		var err error
+		usePublic := false
+		if rapid.IntRange(0, 2).Draw(rt, "fallback") == 0 {
+			// a key type without registered proto parser: the fallback key and its serializers
+			url := rapid.SampledFrom([]string{legacykm.MacURL, legacykm.AeadURL, legacykm.SignerURL, legacykm.VerifierURL, legacykm.HybridPrivURL, legacykm.HybridPubURL, legacykm.RemoteURL, legacykm.UnknownMatURL}).Draw(rt, "url")
+			pt := rapid.SampledFrom(prefixTypes).Draw(rt, "prefixtype")
+			id := gen.KeyID(rt, "id") | 1
+			val := gen.BytesN(rt, "value", 32)
+			ks := &tinkpb.Keyset{PrimaryKeyId: id, Key: []*tinkpb.Keyset_Key{legacykm.Key(url, val, legacykm.Material(url), pt, id, tinkpb.KeyStatusType_ENABLED)}}
+			h, err = legacykm.HandleFromProto(ks)
+			if err != nil {
+				rt.Fatalf("fallback key handle (%s): %v", url, err)
+			}
+			e, _ := h.Primary()
+			k = e.Key()
+			info = &keys.Info{Type: "Fallback(" + url[len("type.googleapis.com/"):] + ")", Desc: fmt.Sprintf("fallback key %s material=%v prefix=%v id=%#x value=%x", url, legacykm.Material(url), pt, id, val)}
+			usePublic = legacykm.Material(url) == tinkpb.KeyData_ASYMMETRIC_PUBLIC || legacykm.Material(url) == tinkpb.KeyData_REMOTE
+		} else {
+			info = drawAnyKey(rt)
+			usePublic = info.Public != nil && rapid.Bool().Draw(rt, "public")
+			k = info.Key
+			if usePublic {
+				k = info.Public
+			}
+			if serialized(k) == nil {
+				evid.Case("keyset/not-serializable", false, 0, nil)
+				return
+			}
+			h, err = tk.HandleFromKey(k)
+			if err != nil {
+				rt.Fatalf("%s: %v", info.Desc, err)
+			}
 		}
-		if serialized(k) == nil {
-			evid.Case("keyset/not-serializable", false, 0, nil)
-			return
-		}
-		h, err := tk.HandleFromKey(k)
-		if err != nil {
-			rt.Fatalf("%s: %v", info.Desc, err)
-		}
+		keyBefore := serialized(k)
 		infoBefore := h.KeysetInfo().String()
 		ksA := insecurecleartextkeyset.KeysetMaterial(h)
 		pristine := proto.Clone(ksA).(*tinkpb.Keyset)
@@ -406,7 +431,7 @@ func TestKeysetProtoDoesNotAlias(t *testing.T) {
 		}
 		ksA.PrimaryKeyId ^= 1
 		ksB := insecurecleartextkeyset.KeysetMaterial(h)
-		if !proto.Equal(ksB, pristine) || h.KeysetInfo().String() != infoBefore {
+		if !proto.Equal(ksB, pristine) || h.KeysetInfo().String() != infoBefore || !bytes.Equal(serialized(k), keyBefore) {
 			knownOrFail(rt, "keyset-aliasing:KeysetMaterial:"+info.Type, fmt.Sprintf("%s: mutating the proto returned by KeysetMaterial changed the handle", info.Desc))
 		}
 		// 2. build a handle from a proto, then mutate the proto
